@@ -18,7 +18,7 @@ import (
 	"golang.org/x/tools/go/ssa/ssautil"
 )
 
-const repoDir = "/repo"
+var repoDir = "/repo"
 const modPath = "github.com/TimothyStiles/poly"
 
 var verifDir = "/verif"
